@@ -324,7 +324,38 @@ def run_case(case):
             elif which == 'user_stop':
                 want = 5
             stop_at = r.randint(0, 20) if which == 'user_stop' else None
-            st, log, msgs = run(sim, tmax, exact=r.random() < 0.5, stop_at=stop_at, cond=cond)
+            exact_s = r.random() < 0.5
+            if which in ('escape', 'encounter') and r.random() < 0.6 and integ != 'whfast512':
+                # aim the limit so that the condition becomes true for the first time at the LAST boundary of an exact-finish call
+                # (the one reached by the shortened step): a probe copy is run first and logs the metric at every boundary
+                if which == 'escape':
+                    metric = lambda s: max(p.x * p.x + p.y * p.y + p.z * p.z for p in [s.particles[i] for i in range(s.N)]) ** 0.5
+                else:
+                    def metric(s):
+                        P = [(s.particles[i].x, s.particles[i].y, s.particles[i].z) for i in range(s.N)]
+                        return min(math.dist(P[i], P[j]) for i in range(len(P)) for j in range(i))
+                sim.exit_max_distance = 0.0
+                sim.exit_min_distance = 0.0
+                probe = sim.copy()
+                tmax_p = t0 + direction * r.uniform(3.2, 40.7) * abs(dt0)
+                stp, plog, _m = run(probe, tmax_p, exact=True, cond=metric)
+                vals = [e[4] for e in plog]
+                lim2 = None
+                if stp == 0 and len(vals) >= 3:
+                    if which == 'escape' and vals[-1] > max(vals[:-1]) * (1 + 1e-9):
+                        lim2 = math.sqrt(vals[-1] * max(vals[:-1]))
+                    if which == 'encounter' and vals[-1] < min(vals[:-1]) * (1 - 1e-9):
+                        lim2 = math.sqrt(vals[-1] * min(vals[:-1]))
+                if lim2 is not None:
+                    lim = lim2
+                    tmax = tmax_p
+                    exact_s = True
+                    counters['status_condition_first_true_at_final_exact_boundary'] = counters.get('status_condition_first_true_at_final_exact_boundary', 0) + 1
+                if which == 'escape':
+                    sim.exit_max_distance = lim
+                else:
+                    sim.exit_min_distance = lim
+            st, log, msgs = run(sim, tmax, exact=exact_s, stop_at=stop_at, cond=cond)
             info = '%s %s dir=%d' % (integ, which, direction)
             if which in ('escape', 'encounter'):
                 first = next((i for i, e in enumerate(log) if e[4]), None)
@@ -383,7 +414,7 @@ def main(tier, seed):
         for c, rr in zip(cs, res):
             V.absorb(c, rr)
     inc = []
-    for k in ('calls', 'boundaries', 'last_step_shrunk', 'last_step_repeated', 'split_runs', 'status_cases', 'noop_calls', 'step_count_checked'):
+    for k in ('calls', 'boundaries', 'last_step_shrunk', 'last_step_repeated', 'split_runs', 'status_cases', 'status_condition_first_true_at_final_exact_boundary', 'noop_calls', 'step_count_checked'):
         if V.counters.get(k, 0) == 0:
             inc.append('monitor counter %s is zero' % k)
     return V.finish(
